@@ -438,5 +438,20 @@ def rule_merge_no_shortcut(ctx):
                 args_txt = " ".join(A.render(a) for a in mc["args"])
                 other = any(re.search(r"\b%s\b" % re.escape(s_), args_txt) for s_ in sides if s_ != rn)
                 if rn in sides and other:
+                    # fine when the both-present case was refused before: evaluate the body with both sides' part present
+                    # (Option interpreter) - a definite `Err` means the shortcut only ever sees at most one value
+                    from .. import optalg as O
+
+                    fld = A.render(mc["receiver"]).replace(" ", "")
+                    m2 = re.search(r"\b(%s)\.([\w.]+)" % "|".join(re.escape(s_) for s_ in sides if s_ != rn), args_txt)
+                    refused = False
+                    if m2:
+                        try:
+                            _e, out_ = O.run_fn_body(fn.block["stmts"], {fld: O.some("a"), f"{m2.group(1)}.{m2.group(2)}": O.some("b")})
+                            refused = out_[1] == ("Err",)
+                        except Exception:
+                            refused = False
+                    if refused:
+                        continue
                     ctx.report(f"merge-dup:{rel}::{fn.qual}:{mc['method']['sym']}", ctx.where(f, mc["method"]), f"`{fn.qual}` resolves a part given by both attributes with `{A.render(mc)[:80]}`: one value is kept and the other dropped without a diagnostic (a duplicated `skip` / list / literal is accepted), instead of the sub-attribute's own merge refusing it", {})
     ctx.floor("attribute merge functions", n, 8)
